@@ -450,6 +450,8 @@ func rulePOS1(c *Ctx) {
 	}
 }
 
+var dumpPanicLeads bool
+
 // reviewed panic sites: function -> number of panic calls (by class); a function may lose panics but not gain them
 var panicBudget = map[string]int{}
 
@@ -462,6 +464,7 @@ func rulePANIC1(c *Ctx) {
 	p := c.P
 	n := 0
 	counts := map[string]int{}
+	leads := map[string]int{}
 	for _, f := range p.FuncsIn("json", "jsontext", "internal", "jsonflags", "jsonopts", "jsonwire", "v1") {
 		if f.Body() == nil {
 			continue
@@ -508,6 +511,7 @@ func rulePANIC1(c *Ctx) {
 					}
 				}
 			}
+			leads[pkgOfName(f.Name)+"|"+msg]++
 			key := fmt.Sprintf("panic:%s#%d", f.Name, k)
 			c.Oblige(key, call.Pos(), class != "", "unclassified panic (message `"+msg+"`): neither an internal invariant (BUG/unreachable) nor a documented API-misuse panic")
 			return true
@@ -522,26 +526,36 @@ func rulePANIC1(c *Ctx) {
 		}
 		return fn
 	}
-	reviewed, actual := map[string]int{}, map[string]int{}
-	for fn, b := range panicBudgetTable {
-		reviewed[pkgOf(fn)] += b
-	}
-	for fn, k := range counts {
-		actual[pkgOf(fn)] += k
-	}
-	for _, pk := range sortedKeys(actual) {
-		detail := ""
-		if actual[pk] > reviewed[pk] {
-			var grown []string
-			for _, fn := range sortedKeys(counts) {
-				if pkgOf(fn) == pk && counts[fn] > panicBudgetTable[fn] {
-					grown = append(grown, fmt.Sprintf("%s (%d, reviewed %d)", fn, counts[fn], panicBudgetTable[fn]))
-				}
-			}
-			detail = fmt.Sprintf("package %s has %d explicit panic sites, %d were reviewed; functions with more sites than reviewed: %s", pk, actual[pk], reviewed[pk], strings.Join(grown, ", "))
+	if dumpPanicLeads {
+		fmt.Println("var panicLeadTable = map[string]int{")
+		for _, k := range sortedKeys(leads) {
+			fmt.Printf("\t%q: %d,\n", k, leads[k])
 		}
-		c.Oblige("panic-budget:"+pk, token.NoPos, actual[pk] <= reviewed[pk], detail)
+		fmt.Println("}")
 	}
+	// a package may only gain panic sites that repeat a message it already had when the panics were reviewed
+	// (splitting a function duplicates its final `panic("invalid ...")`; a panic with a new message is news)
+	perPkgNew := map[string][]string{}
+	pkgsSeen := map[string]bool{}
+	for k := range leads {
+		pk := k[:strings.Index(k, "|")]
+		pkgsSeen[pk] = true
+		if _, known := panicLeadTable[k]; !known {
+			perPkgNew[pk] = append(perPkgNew[pk], "`"+k[strings.Index(k, "|")+1:]+"`")
+		}
+	}
+	_ = pkgOf
+	for _, pk := range sortedKeys(pkgsSeen) {
+		sort.Strings(perPkgNew[pk])
+		c.Oblige("panic-budget:"+pk, token.NoPos, len(perPkgNew[pk]) == 0, "package "+pk+" has explicit panics with messages that were not there when the panics were reviewed: "+strings.Join(perPkgNew[pk], ", "))
+	}
+}
+
+func pkgOfName(fn string) string {
+	if i := strings.Index(fn, "."); i > 0 {
+		return fn[:i]
+	}
+	return fn
 }
 
 // nameGuardOK checks, path-sensitively and independent of the if/switch form,
